@@ -1,0 +1,288 @@
+//go:build verif
+
+package zygo
+
+import (
+	"fmt"
+	"math"
+	"strconv"
+	"strings"
+)
+
+// Read-only accessors for the C13 verification harness (build tag verif):
+// the token stream of a text, the atom classifier, a dump of every lexer and
+// parser field that survives between calls, and a canonical rendering of
+// parsed expressions that shows the flags SexpString hides.
+
+// VerifToken is one lexer token: the name of its kind and its text.
+type VerifToken struct {
+	Kind string
+	Text string
+}
+
+var verifTokenNames = map[TokenType]string{
+	TokenTypeEmpty:           "Empty",
+	TokenLParen:              "LParen",
+	TokenRParen:              "RParen",
+	TokenLSquare:             "LSquare",
+	TokenRSquare:             "RSquare",
+	TokenLCurly:              "LCurly",
+	TokenRCurly:              "RCurly",
+	TokenDot:                 "Dot",
+	TokenQuote:               "Quote",
+	TokenBacktick:            "Backtick",
+	TokenTilde:               "Tilde",
+	TokenTildeAt:             "TildeAt",
+	TokenSymbol:              "Symbol",
+	TokenBool:                "Bool",
+	TokenDecimal:             "Decimal",
+	TokenHex:                 "Hex",
+	TokenOct:                 "Oct",
+	TokenBinary:              "Binary",
+	TokenFloat:               "Float",
+	TokenChar:                "Char",
+	TokenString:              "String",
+	TokenCaret:               "Caret",
+	TokenColonOperator:       "ColonOperator",
+	TokenThreadingOperator:   "ThreadingOperator",
+	TokenBackslash:           "Backslash",
+	TokenDollar:              "Dollar",
+	TokenDotSymbol:           "DotSymbol",
+	TokenFreshAssign:         "FreshAssign",
+	TokenBeginBacktickString: "BeginBacktickString",
+	TokenBacktickString:      "BacktickString",
+	TokenComment:             "Comment",
+	TokenBeginBlockComment:   "BeginBlockComment",
+	TokenEndBlockComment:     "EndBlockComment",
+	TokenSemicolon:           "Semicolon",
+	TokenSymbolColon:         "SymbolColon",
+	TokenComma:               "Comma",
+	TokenUint64:              "Uint64",
+	TokenEnd:                 "End",
+}
+
+// VerifTokenKind names a token type.
+func VerifTokenKind(t TokenType) string {
+	if s, ok := verifTokenNames[t]; ok {
+		return s
+	}
+	return "Unknown" + strconv.Itoa(int(t))
+}
+
+func verifTok(t Token) VerifToken { return VerifToken{Kind: VerifTokenKind(t.typ), Text: t.str} }
+
+// VerifLexState is a lexer that is fed rune by rune; it exposes what LexNextRune
+// leaves behind after every rune.
+type VerifLexState struct{ lx *Lexer }
+
+// VerifNewLexer makes a fresh lexer that is not attached to any parser.
+func VerifNewLexer() *VerifLexState { return &VerifLexState{lx: NewLexer(nil)} }
+
+// Feed runs LexNextRune on every rune of text, stopping at the first error.
+func (v *VerifLexState) Feed(text string) error {
+	for _, r := range text {
+		if err := v.lx.LexNextRune(r); err != nil {
+			return err
+		}
+	}
+	return nil
+}
+
+// Reset calls Lexer.Reset.
+func (v *VerifLexState) Reset() { v.lx.Reset() }
+
+// Tokens returns the queued tokens.
+func (v *VerifLexState) Tokens() []VerifToken {
+	out := make([]VerifToken, 0, len(v.lx.tokens))
+	for _, t := range v.lx.tokens {
+		out = append(out, verifTok(t))
+	}
+	return out
+}
+
+// Dump renders every field of the lexer that LexNextRune reads or writes.
+func (v *VerifLexState) Dump() string { return verifDumpLexer(v.lx) }
+
+func verifDumpLexer(lx *Lexer) string {
+	var sb strings.Builder
+	fmt.Fprintf(&sb, "state=%d prevrune=%d prebuiltin=%d buffer=%q priori=%d ring=%v", int(lx.state), lx.prevrune,
+		lx.preBuiltinRune, lx.buffer.String(), lx.priori, lx.priorRune)
+	fmt.Fprintf(&sb, " prevtok=%s:%q prevprevtok=%s:%q linenum=%d stream_nil=%v next=%d tokens=[", VerifTokenKind(lx.prevToken.typ), lx.prevToken.str,
+		VerifTokenKind(lx.prevPrevToken.typ), lx.prevPrevToken.str, lx.linenum, lx.stream == nil, len(lx.next))
+	for i, t := range lx.tokens {
+		if i > 0 {
+			sb.WriteString(" ")
+		}
+		fmt.Fprintf(&sb, "%s:%q", VerifTokenKind(t.typ), t.str)
+	}
+	sb.WriteString("]")
+	return sb.String()
+}
+
+// VerifLex runs a fresh lexer over the text (rune by rune, exactly the fold of
+// LexNextRune) and returns the tokens produced before the first error, and that error.
+func VerifLex(text string) ([]VerifToken, error) {
+	v := VerifNewLexer()
+	err := v.Feed(text)
+	return v.Tokens(), err
+}
+
+// VerifDecodeAtom runs the atom classifier of a fresh lexer.
+func VerifDecodeAtom(atom string) (VerifToken, error) {
+	if len(atom) == 0 {
+		return VerifToken{}, fmt.Errorf("empty atom")
+	}
+	t, err := NewLexer(nil).DecodeAtom(atom)
+	return verifTok(t), err
+}
+
+// VerifDump renders the lexer fields and the parser fields that survive between calls.
+func (p *Parser) VerifDump() string {
+	errs := "nil"
+	if p.sendMe != nil && p.sendMe.Err != nil {
+		errs = "set"
+	}
+	n := 0
+	if p.sendMe != nil {
+		n = len(p.sendMe.Expr)
+	}
+	return fmt.Sprintf("%s | next_nil=%v stop_nil=%v yield_nil=%v sendme=%d senderr=%s recur=%d",
+		verifDumpLexer(p.lexer), p.next == nil, p.stop == nil, p.yield == nil, n, errs, p.recur)
+}
+
+// VerifPending reports what the lexer still holds: its mode, the unfinished atom, the number of queued tokens.
+func (p *Parser) VerifPending() (state int, buffer string, queued int) {
+	return int(p.lexer.state), p.lexer.buffer.String(), len(p.lexer.tokens)
+}
+
+// VerifTokens runs a fresh lexer over a text; see VerifLex.
+func (p *Parser) VerifTokens(text string) ([]VerifToken, error) { return VerifLex(text) }
+
+func verifEsc(s string) string {
+	var sb strings.Builder
+	for _, r := range s {
+		if r >= 0x21 && r <= 0x7e && r != '\\' && r != '#' && r != '|' {
+			sb.WriteRune(r)
+		} else {
+			fmt.Fprintf(&sb, "\\%d;", r)
+		}
+	}
+	return sb.String()
+}
+
+// VerifEsc renders a string on one line: printable ASCII except backslash and # as is, any other rune as \<decimal>;
+func VerifEsc(s string) string { return verifEsc(s) }
+
+// VerifCanon renders a parsed expression structurally, with a tag per node kind.
+// Floats are rendered as f#<bits>#; '#' occurs nowhere else.
+func VerifCanon(x Sexp) string {
+	var sb strings.Builder
+	verifCanon(&sb, x, 0)
+	return sb.String()
+}
+
+func verifCanon(sb *strings.Builder, x Sexp, depth int) {
+	if depth > 100000 {
+		sb.WriteString("<deep>")
+		return
+	}
+	switch t := x.(type) {
+	case nil:
+		sb.WriteString("<gonil>")
+	case *SexpSentinel:
+		switch t {
+		case SexpNull:
+			sb.WriteString("nil")
+		case SexpEnd:
+			sb.WriteString("<end>")
+		default:
+			sb.WriteString("<marker>")
+		}
+	case *SexpPair:
+		sb.WriteString("(")
+		cur := t
+		for {
+			verifCanon(sb, cur.Head, depth+1)
+			if nx, ok := cur.Tail.(*SexpPair); ok {
+				sb.WriteString(" ")
+				cur = nx
+				continue
+			}
+			break
+		}
+		if cur.Tail != SexpNull {
+			sb.WriteString(" \\ ")
+			verifCanon(sb, cur.Tail, depth+1)
+		}
+		sb.WriteString(")")
+	case *SexpArray:
+		if t.Infix {
+			sb.WriteString("{[")
+		} else {
+			sb.WriteString("[")
+		}
+		for i, e := range t.Val {
+			if i > 0 {
+				sb.WriteString(" ")
+			}
+			verifCanon(sb, e, depth+1)
+		}
+		if t.Infix {
+			sb.WriteString("]}")
+		} else {
+			sb.WriteString("]")
+		}
+	case *SexpHash:
+		fmt.Fprintf(sb, "<hash:%s:%d>", t.TypeName, t.NumKeys)
+	case *SexpSymbol:
+		sb.WriteString("y")
+		if t.colonTail {
+			sb.WriteString("c")
+		}
+		if t.isDot {
+			sb.WriteString("d")
+		}
+		sb.WriteString(":" + verifEsc(t.name))
+	case *SexpInt:
+		fmt.Fprintf(sb, "i:%d", t.Val)
+	case *SexpUint64:
+		fmt.Fprintf(sb, "u:%d", t.Val)
+	case *SexpFloat:
+		if t.Scientific {
+			sb.WriteString("fs")
+		} else {
+			sb.WriteString("f")
+		}
+		fmt.Fprintf(sb, "#%016x#", math.Float64bits(t.Val))
+	case *SexpChar:
+		fmt.Fprintf(sb, "c:%d", t.Val)
+	case *SexpBool:
+		fmt.Fprintf(sb, "b:%v", t.Val)
+	case *SexpStr:
+		if t.backtick {
+			sb.WriteString("r:" + verifEsc(t.S))
+		} else {
+			sb.WriteString("s:" + verifEsc(t.S))
+		}
+	case *SexpComment:
+		if t.Block {
+			sb.WriteString("kb:" + verifEsc(t.Comment))
+		} else {
+			sb.WriteString("k:" + verifEsc(t.Comment))
+		}
+	case *SexpComma:
+		sb.WriteString(",")
+	case *SexpSemicolon:
+		sb.WriteString(";")
+	default:
+		fmt.Fprintf(sb, "<%T>", x)
+	}
+}
+
+// VerifFloatBits exposes the value of a float literal node (0,false for other nodes).
+func VerifFloatBits(x Sexp) (float64, bool) {
+	if f, ok := x.(*SexpFloat); ok {
+		return f.Val, true
+	}
+	return 0, false
+}
